@@ -321,6 +321,8 @@ def case_sunrise(mon, y, m, d, lat, lon, h):
     ident = ("sun", y, m, d, lat, lon, h)
     if d != int(d):
         mon.cls("epoch-with-time-of-day", ident, case)
+    if isinstance(h, int) and h > 0:
+        mon.cls("height-given-as-int", ident, case)
     if abs(lat) > 60.0:
         mon.cls("|lat|>60", ident, case if abs(lat) == 66.5 else None)
     if (m in (6, 12)) and 11 <= d <= 31:
@@ -511,7 +513,9 @@ def run(mon, spec):
                           rng.uniform(60, 66.5), -rng.uniform(60, 66.5),
                           0.0))
         lon = rng.choice((180.0, -180.0, 0.0, rng.uniform(-180, 180)))
-        h = rng.choice((0.0, 5000.0, rng.uniform(0, 5000)))
+        h = rng.choice((0.0, 5000.0, rng.uniform(0, 5000),
+                        # the height as an int (metres are often given so)
+                        rng.choice((0, 520, 2500, 5000, rng.randrange(5000)))))
         if k % 16 == 2:
             # both ends of the range, in the months where the century rule of
             # the calendar matters
